@@ -21,6 +21,7 @@ QUICK = [
     ("Grammar_kinds.cfg", "every at-rule kind x nesting", {"MaxTop": 2, "MaxUnits": 3, "MaxDepth": 2, "MaxFeat": 0, "MaxWs": 0, "AtKinds": ALL}, {}),           # 3.4k
     ("Grammar_deep.cfg", "unit sequences and nesting", {"MaxTop": 3, "MaxUnits": 5, "MaxDepth": 2, "MaxFeat": 0, "MaxWs": 0, "AtKinds": "media fontface unknown"}, {}),  # 36k
     ("Grammar_feat.cfg", "selector / value / prelude mixes", {"MaxTop": 1, "MaxUnits": 2, "MaxDepth": 1, "MaxFeat": 2, "MaxWs": 0, "AtKinds": "media import"}, {}),     # 8k
+    ("Grammar_feat3.cfg", "three selector / value / prelude features in one rule", {"MaxTop": 1, "MaxUnits": 1, "MaxDepth": 1, "MaxFeat": 3, "MaxWs": 0, "AtKinds": "media"}, {}),  # 10k
     ("Grammar_sep1.cfg", "every mix x every separator position", {"MaxTop": 2, "MaxUnits": 2, "MaxDepth": 1, "MaxFeat": 1, "MaxWs": 1, "AtKinds": ALL}, {}),          # 48k
     ("Grammar_sep2.cfg", "pairs of separators", {"MaxTop": 1, "MaxUnits": 3, "MaxDepth": 2, "MaxFeat": 0, "MaxWs": 2, "AtKinds": "media"}, {}),                       # 8k
 ]
